@@ -890,6 +890,104 @@ def linkView (c : Cfg) (fs : FS) (names : List Text) : List (Option (Nat × Nat 
     | none => none
     | some i => some (inos.findIdx (· = some i), fs.edgesTo i, (fs.node i).data)
 
+/-! ## the disk half of `DirFS` (`pkg/apk/fs/rwosfs.go`) for regular files
+
+`DirFS` keeps names, kinds, modes and xattrs in an in-memory overlay (a `memfs`: the machine above, fed with
+empty contents) and the bytes of regular files in a directory of the host.  What the host does with the calls
+`DirFS` makes is modelled at the level the property needs: names of regular files refer to inodes, inodes hold
+bytes; `os.WriteFile` / `os.OpenFile(O_TRUNC)` / `os.Create` of an existing name act on its inode (every other
+name of the inode sees the new bytes), `os.Link` adds a name to an inode, `os.Remove` drops a name.  Whether a
+call succeeds is decided by the overlay (inside the envelope of the `dirfs-hl` cases disk and overlay hold the
+same tree; `F17f` is where they do not). -/
+
+structure Disk where
+  /-- clean root-relative path of a regular file ↦ inode -/
+  names : List (Text × Nat) := []
+  /-- bytes of inode `i` (inodes are never re-used) -/
+  inodes : List Text := []
+  /-- open `*os.File`s in the order of the `OpenFile`/`Create` calls (`none`: the call failed): inode, offset,
+      `O_APPEND` -/
+  handles : List (Option (Nat × Nat × Bool)) := []
+  deriving DecidableEq, Repr
+
+def Disk.ino (d : Disk) (p : Text) : Option Nat := d.names.lookup p
+
+/-- `os.ReadFile` -/
+def Disk.read (d : Disk) (p : Text) : Option Text := (d.ino p).map fun i => d.inodes.getD i []
+
+/-- `Stat_t.Nlink` -/
+def Disk.nlink (d : Disk) (i : Nat) : Nat := (d.names.filter fun e => e.2 = i).length
+
+/-- a new name with a fresh inode -/
+def Disk.createNew (d : Disk) (p : Text) (b : Text) : Disk :=
+  { d with names := d.names ++ [(p, d.inodes.length)], inodes := d.inodes ++ [b] }
+
+/-- `os.WriteFile(path, b, perm)` = open `O_WRONLY|O_CREATE|O_TRUNC`, write, close: an existing name keeps its
+inode -/
+def Disk.writeFile (d : Disk) (p : Text) (b : Text) : Disk :=
+  match d.ino p with
+  | some i => { d with inodes := d.inodes.set i b }
+  | none => d.createNew p b
+
+/-- replacing a file "atomically" (temporary file + `os.Rename` over the name): the name gets a fresh inode.
+NOT what `DirFS.WriteFile` does (tie `tie_stmtsDirfs_WriteFile`); `disk_replace_splits` shows why it must not. -/
+def Disk.replaceFile (d : Disk) (p : Text) (b : Text) : Disk :=
+  { d with names := d.names.filter (fun e => e.1 ≠ p) ++ [(p, d.inodes.length)], inodes := d.inodes ++ [b] }
+
+/-- `os.Link(old, new)` -/
+def Disk.link (d : Disk) (o n : Text) : Option Disk :=
+  match d.ino o, d.ino n with
+  | some i, none => some { d with names := d.names ++ [(n, i)] }
+  | _, _ => none
+
+/-- `os.Remove` of a regular file -/
+def Disk.remove (d : Disk) (p : Text) : Disk := { d with names := d.names.filter fun e => e.1 ≠ p }
+
+/-- a successful `os.OpenFile(path, flag, perm)` / `os.Create(path)` -/
+def Disk.openOk (d : Disk) (p : Text) (flag : Nat) : Disk :=
+  let d1 := if (d.ino p).isNone then d.createNew p [] else d
+  match d1.ino p with
+  | none => { d1 with handles := d1.handles ++ [none] }
+  | some i =>
+    let d2 := if oTrunc flag then { d1 with inodes := d1.inodes.set i [] } else d1
+    { d2 with handles := d2.handles ++ [some (i, 0, oAppend flag)] }
+
+/-- `(*os.File).Write` -/
+def Disk.write (d : Disk) (h : Nat) (b : Text) : Disk :=
+  match d.handles[h]? with
+  | some (some (i, off, app)) =>
+    let data := d.inodes.getD i []
+    let at_ := if app then data.length else off
+    { d with inodes := d.inodes.set i (writeAt data at_ b),
+             handles := d.handles.set h (some (i, at_ + b.length, app)) }
+  | _ => d
+
+/-- the disk half of one `DirFS` call; `ok`: the call as a whole succeeded -/
+def Disk.apply (d : Disk) : Op → Bool → Disk
+  | .writeFile p b _, true => d.writeFile (clean p) b
+  | .link o n, true => (d.link (clean o) (clean n)).getD d
+  | .remove p, true => d.remove (clean p)
+  | .create p, true => d.openOk (clean p) flagsWriteFile
+  | .openFile p f _, true => d.openOk (clean p) f
+  | .create _, false => { d with handles := d.handles ++ [none] }
+  | .openFile _ _ _, false => { d with handles := d.handles ++ [none] }
+  | .write h b, true => d.write h b
+  | _, _ => d
+
+/-- what `os.Lstat` / `os.SameFile` / `Nlink` / `os.ReadFile` of the disk paths of `names` show (same shape as
+`linkView`) -/
+def Disk.view (d : Disk) (names : List Text) : List (Option (Nat × Nat × Text)) :=
+  let inos := names.map fun p => d.ino (clean p)
+  inos.map fun oi =>
+    match oi with
+    | none => none
+    | some i => some (inos.findIdx (· = some i), d.nlink i, d.inodes.getD i [])
+
+/-- names refer to inodes that exist, and no name is listed twice -/
+structure Disk.Inv (d : Disk) : Prop where
+  live : ∀ p i, (p, i) ∈ d.names → i < d.inodes.length
+  nodup : (d.names.map (·.1)).Nodup
+
 /-- SubFS: every method joins the root to its path(s); a symlink's target is data, not a path of
 the view, and stays as given -/
 def subOp (root : Text) : Op → Op
